@@ -1,5 +1,6 @@
 import Mathlib.Tactic
 import PqVerif.Model.Sampler
+import PqVerif.Lemmas.CliffordClifford
 
 /-!
 # C02 — measurement samples follow the Born rule (partial): the sampling schemes
@@ -9,9 +10,13 @@ conditional weight tables are consistent marginals (`Σ_a marg (l ++ [a]) = marg
 string `l` with probability `marg l / marg []` — this is the scheme of the Gaussian photon-number sampler
 (loop-hafnian chain), the threshold sampler, the marginal sampler of the passive simulator and the last step of
 Clifford–Clifford; (iii) aborting a trial as soon as its prefix can no longer be accepted leaves the
-probability of every accepted outcome unchanged (post-selection with early abort).  NOT proved: that the
-concrete conditional tables (permanents, hafnians, torontonians) are the Born marginals — the exact law of
-the real samplers is computed by path enumeration and compared with an independent oracle instead.
+probability of every accepted outcome unchanged (post-selection with early abort); (iv) the conditional pmf of
+the Clifford–Clifford sampler (`_calculate_pmf`): the number the code squares is the permanent with multiplicities of
+the sample extended by the candidate mode, and for orthonormal columns the normaliser is
+`Σ_c v_c² |perm(U; r, v − e_c)|²` — Lemma 2 of Clifford & Clifford generalised to bunched inputs.  NOT proved:
+the average over the random column order that turns these conditionals into the Born law, and the hafnian /
+torontonian tables — the exact law of the real samplers is computed by path enumeration and compared with an
+independent oracle instead.
 -/
 namespace Pq.C02
 open Pq.Sampler
@@ -284,5 +289,22 @@ theorem early_abort_never_bad (A : List α) (w : List α → α → Rat) (bad : 
           · exact absurd (h ▸ hbad) hb
           · exact h
         rw [ih pre hpp, zero_mul]
+
+
+/-! ### the conditional pmf of the Clifford–Clifford sampler -/
+
+open Pq.Kernel Pq.FockRep Pq.CliffordClifford in
+/-- `permanent_i` of `_calculate_pmf` is `perm(U; r + e_i, v)` -/
+theorem cc_pmf_numerator {n k : Nat} (U : Fin n → Fin k → ℂ) (r : Fin n → Nat) (v : Fin k → Nat) (i : Fin n) :
+    ∑ c, (v c : ℂ) * (U i c * permSpec U r (decRow v c)) = permSpec U (incRow r i) v :=
+  Pq.CliffordClifford.pmf_numerator U r v i
+
+open Pq.Kernel Pq.FockRep Pq.CliffordClifford in
+/-- the normaliser of the conditional pmf for an interferometer with orthonormal columns, any multiplicities -/
+theorem cc_pmf_normalisation {n k : Nat} (U : Fin n → Fin k → ℂ) (r : Fin n → Nat) (v : Fin k → Nat)
+    (hU : ∀ c c' : Fin k, ∑ i, (starRingEnd ℂ) (U i c) * U i c' = if c = c' then 1 else 0) :
+    ∑ i, Complex.normSq (permSpec U (incRow r i) v)
+      = ∑ c, ((v c : ℝ)) ^ 2 * Complex.normSq (permSpec U r (decRow v c)) :=
+  Pq.CliffordClifford.pmf_normalisation U r v hU
 
 end Pq.C02
